@@ -227,6 +227,15 @@ def check_after_applications(ctx):
             self.needed = needed
         subs.append(type('Strict' + cls.__name__, (cls,),
                          {'__init__': __init__, '__slots__': ['needed']}))
+        # bookkeeping slots of the application's own, the "stay slotted"
+        # idiom, the parent's names repeated
+        for slots in (['received_at'], (), ['received_at', 'seen'],
+                      list(getattr(cls, '__slots__', []))):
+            try:
+                subs.append(type('Slotted' + cls.__name__, (cls,),
+                                 {'__slots__': slots}))
+            except Exception:  # noqa - a layout conflict is Python's answer
+                pass
     try:
         subs.append(type('Vendor', (p.base.Frame,), {
             'frame_id': 900, 'index': 0x03840001, 'name': 'Vendor.Method',
